@@ -288,7 +288,9 @@ def run (q : Quirks) (ops : Ops σ) (isCss : σ → Bool) (compressed : Bool) (f
     match emitTop q ops core with
     | .error e => .error e
     | .ok st =>
-      .ok { items := writtenItems (if q.hashCommentDropped then ops.isHash else ops.isSourceMap) st.root,
-            lost := st.lost }
+      -- which comments `Comment::write` prints nothing for is decided when the tree is written
+      -- (`writtenItems`, and the canonical rendering of the drivers): an `@media` holding only
+      -- such a comment is still printed, as an empty block
+      .ok { items := st.root, lost := st.lost }
 
 end Dest
